@@ -1,6 +1,6 @@
 """C02 -- voxel values and patient-space geometry are preserved by conversion.
 
-One part.  A case is a complete S x T x V series (props/convlib.py) converted with
+Two parts.  main: a case is a complete S x T x V series (props/convlib.py) converted with
 DicomStack.to_nifti(voxel_order, embed_meta=False); the observation is the whole output array, dtype, affine
 (exact rationals) and header fields; a second voxel order is converted as well for the invariance oracle."""
 import os, sys
@@ -13,14 +13,14 @@ COQ_EXTRA_TARGETS = ["Conv/CorrGeom.vo"]
 THEOREMS = ["C02_values", "C02_values_rescaled", "C02_geometry", "C02_geometry_sources", "C02_geometry_irregular", "C02_invariance", "C02_dtype", "C02_dtype_lattice"]
 ALLOWED_AXIOMS = []
 TABLES = ["t_stack", "t_time", "t_conv"]
-RULE = ("complete S x T x V grids (quick: S <= 3, T, V <= 2; thorough: S <= 5, T, V <= 3) x orientation {axial, sagittal, coronal, in-plane "
+RULE = ("complete S x T x V grids (quick: S <= 3, T, V <= 3 incl. all shapes with T != V; thorough: S <= 5, T, V <= 4) x orientation {axial, sagittal, coronal, in-plane "
         "rotated, oblique with dyadic near-Pythagorean cosines (exact stream), oblique with float 3-4-5 / 2-3-6 cosines (2^-30 stream)} x "
-        "both slice directions x pixel matrices 2x2..3x4 with unique stored values per (file, row, column) x dyadic spacings / gaps / origins "
+        "both slice directions x pixel matrices 2x2..6x5 (also 2x7, 4x2) with rescaled values unique per (file, row, column) across the whole series x dyadic spacings / gaps / origins "
         "x signed / unsigned x BitsStored {8, 12, 15, 16} x BitsAllocated {8, 16, 32} x rescale slope / intercept (integral and k/4), each of these "
-        "uniform or DIFFERING between the files of the series (30 % each) x voxel order (quick: 8 of the 48 + '' + default; "
-        "thorough: all 48 + '' + default) x time / vector ordering explicit or guessed x shuffled add order; a second voxel order per case for the "
-        "invariance oracle; a small error stream (invalid codes, incomplete grid).  non-trivial = reorientation is not the identity, or more "
-        "than one slice / volume")
+        "uniform or DIFFERING between the files of the series (30 % each) x voxel order (all 48, each at least once per run, "
+        "some in lower case, + '' + default) x time / vector ordering explicit (6 time keys, 3 vector keys) or guessed (6 guess keys) x shuffled add order; a second voxel order per case for the "
+        "invariance oracle; every case is also converted with embed_meta=True to observe the REPORTED reorientation transform.  non-trivial = the reported transform is not the "
+        "identity, or more than one volume, or the files differ in pixel format")
 TRUSTED_BASE = [
     "nibabel's classic DicomWrapper as a CONTRACT (Conv/Geom.v: slice_normal, slice_indicator, dicom_affine, pix_at), read from nibabel 5.4.2 and "
     "compared with the real wrapper's affine / slice_indicator / get_data on every case",
@@ -60,12 +60,12 @@ class Main:
 
     @staticmethod
     def gen_cases(rng, tier):
-        n = 560 if tier == 'quick' else 4000
+        n = 620 if tier == 'quick' else 4000
         out = []
         # systematic block: every orientation x both directions x a permuting and a flipping order
         for orient in sorted(cl.ALL_ORIENTS):
             for direction in (1, -1):
-                for vo in (['LAS', 'SPR', ''] if tier == 'quick' else ['LAS', 'SPR', 'IRA', 'PIL', '']):
+                for vo in (rng.sample(cl.CODES48, 2) + [''] if tier == 'quick' else rng.sample(cl.CODES48, 4) + ['']):
                     out.append(cl.gen_stack_case(rng, tier, orient=orient, direction=direction, vo=vo, S=rng.choice([2, 3]),
                                                  gap=2.0, ps=[0.5, 0.75], origin=[-8., 4., 16.25]))
         if tier != 'quick':
@@ -74,8 +74,11 @@ class Main:
                     out.append(cl.gen_stack_case(rng, tier, orient=orient, vo=vo, S=3, T=2, V=2, gap=2.0, ps=[0.5, 0.75]))
         # 5-D (and 4-D) grids with T != V, incl. (X, Y, Z, 1, V) and single-slice volumes: the strides of the file index
         for (S, T, V) in cl.DIMS5:
-            for vo in (['LAS', ''] if tier == 'quick' else ['LAS', '', 'SPR', 'IRA']):
+            for vo in ([rng.choice(cl.CODES48), ''] if tier == 'quick' else rng.sample(cl.CODES48, 3) + ['']):
                 out.append(cl.gen_stack_case(rng, tier, S=S, T=T, V=V, vo=vo, rows=2, cols=2, kind='grid-%dx%dx%d' % (S, T, V)))
+        # every one of the 48 voxel orders at least once
+        for vo in cl.CODES48:
+            out.append(cl.gen_stack_case(rng, tier, vo=vo, S=rng.choice([2, 3]), T=rng.choice([1, 2]), V=1, rows=2, cols=3, kind='order-all48'))
         # dtype block: uniform formats ...
         for bits in (8, 12, 15, 16):
             for pixrep in (0, 1):
@@ -89,7 +92,6 @@ class Main:
                                              bits=rng.choice([12, 16]), alloc=16, kind='mixed-' + '+'.join(mix)))
         while len(out) < n:
             out.append(cl.gen_stack_case(rng, tier))
-        out += cl.error_cases(rng, tier)
         return out
 
     @staticmethod
@@ -106,9 +108,12 @@ class Main:
 
     @staticmethod
     def nontrivial(case, obs):
-        if not isinstance(obs, dict) or obs.get('err') is not None:
-            return case.get('expect') == 'error'
-        return case.get('vo') != '' or len(case['files']) > 1
+        """the conversion really rearranges something: the reported transform is not the identity, or there is more than
+        one volume, or the files of the series differ in pixel format"""
+        if not isinstance(obs, dict) or obs.get('err') is not None or 'emb' not in obs or 'T' not in obs['emb']:
+            return False
+        ident = [[1.0 if i == j else 0.0 for j in range(4)] for i in range(4)]
+        return obs['emb']['T'] != ident or case['dims'][1] * case['dims'][2] > 1 or bool(case['info'].get('pixmix'))
 
     shrink = staticmethod(cl.shrink_case)
 
@@ -137,8 +142,9 @@ class Lattice:
     @staticmethod
     def run_impl(case):
         import numpy as np
-        return {'res': str(np.result_type(*[np.dtype(a) for a in case['args']])),
-                'set': str(np.result_type(*set(np.dtype(a) for a in case['args'])))}
+        res = np.result_type(*[np.dtype(a) for a in case['args']])
+        return {'res': str(res), 'set': str(np.result_type(*set(np.dtype(a) for a in case['args']))),
+                'safe': [bool(np.can_cast(np.dtype(a), res, 'safe')) for a in case['args']]}
 
     @staticmethod
     def coq_case(case, obs):
@@ -149,6 +155,16 @@ class Lattice:
 
     @staticmethod
     def oracle(case, obs):
+        """what C02 needs of the promotion: the common type holds every member's values (numpy's own 'safe' casting rule),
+        it stays inside the modelled lattice, and it does not depend on the order of the arguments"""
+        if not isinstance(obs, dict) or 'crash' in obs:
+            return 'crash: %r' % (obs,)
+        if obs['res'] not in Lattice.NAMES:
+            return 'lattice: result_type%s = %s leaves the modelled lattice' % (tuple(case['args']), obs['res'])
+        if obs['res'] != obs['set']:
+            return 'lattice: result_type depends on more than the set of dtypes'
+        if not all(obs['safe']):
+            return 'lattice: result_type%s = %s cannot hold every argument safely' % (tuple(case['args']), obs['res'])
         return None
 
     @staticmethod
